@@ -14,6 +14,8 @@ NOPANIC_NAMES = {
     'wrapping_add', 'wrapping_sub', 'wrapping_shl', 'wrapping_shr', 'wrapping_neg', 'saturating_add', 'saturating_sub',
     'checked_add', 'checked_sub', 'checked_shl', 'checked_shr', 'checked_neg', 'leading_zeros', 'trailing_zeros',
     'is_empty', 'first', 'last', 'as_mut', 'get_mut', 'unwrap_or_else', 'and_then', 'filter', 'replace',
+    'then', 'map_or', 'map_or_else', 'is_some_and', 'zip', 'or', 'or_else', 'xor', 'not', 'bitand', 'bitor', 'abs_diff',
+    'from_u32', 'to_le_bytes', 'to_be_bytes', 'rotate_left', 'rotate_right', 'count_ones', 'swap_bytes',
 }
 PANICKY_NAMES = {'unwrap', 'expect', 'index', 'index_mut', 'panic', 'panic_fmt', 'unreachable', 'assert_failed',
                  'expect_err', 'unwrap_err', 'split_at', 'copy_from_slice', 'swap', 'remove', 'insert', 'drain',
